@@ -21,6 +21,17 @@ The same harness built without sanitizers runs the legal traces, corpus, directe
 exploration under valgrind memcheck when valgrind is installed (`uninit:memcheck:<function>`).  A length
 argument handed to psParseBufCopyN that claims more room than the target object has is reported by the capacity audit
 (`uninit:arg:*`): a slot the compiler re-uses inside the frame cannot be painted from outside.
+Message-sequence and multi-connection scenarios (directed(), always-run: one case per variant in every tier):
+DTLS client fed 1-4 HelloVerifyRequests with cookie lengths {0,1,16,32,255} (every ordered pair, same / different /
+prefix-equal contents, message_seq 0/1, fresh / replayed record numbers) before (hvr-seq) and after (hvr-again) it holds
+a cookie, then the genuine server flight; DTLS server fed ClientHello retransmissions without / with the right / with
+wrong cookies of those lengths in three states (ch-retx); NewSessionTicket of any length / lifetime, duplicated, split
+(nst-len), the same followed by the application's next connection on the session id object the ticket went into
+(nst-reuse, harness flag r).  Configurations t12tk2 / t12tkrot / t12tk3 / t12rid / t13tk2 / d12rid capture and mutate the transcript of the
+second or third connection on the same sslSessionId_t, server keys and session cache (resumption by ticket, ticket
+renewal after the server rotated its ticket key, resumption with the renewed ticket, resumption by id, TLS 1.3 PSK);
+the earlier connections run to completion in the harness first and everything is deleted at the end (LeakSanitizer).
+evidence: always_run_classes / sampled_classes give "run/generated" per class.
 The message / extension parsers behind the modelled framing are explored only (EXPLORED_ONLY)."""
 import json, os, re, subprocess, sys, time
 import vlib
@@ -29,8 +40,12 @@ WRAPS = ["psGetBrokenDownGMTime", "psGetEntropy", "psGetPrngLocked", "psGetTime"
          "csChacha20Poly1305IetfEncryptTls13", "sslUpdateHSHash",
          "psParseBufFromStaticData", "psParseTlsVariableLengthVec", "psParseBufCopyN", "tls13TranscriptHashUpdate"]   # paint points
 
-CFGS = ["t11", "t12", "t12cbc", "t12rsa", "t12ca", "t12ec", "t13", "t13ca", "t13cha", "d12", "d12ca", "d12cbc", "d12f", "d10"]
-DTLS = {"d12", "d12ca", "d12cbc", "d12f", "d10"}
+CFGS = ["t11", "t12", "t12cbc", "t12rsa", "t12ca", "t12ec", "t13", "t13ca", "t13cha", "d12", "d12ca", "d12cbc", "d12f", "d10",
+        # later connections on the same sslSessionId_t / server keys / session cache (h_wire.c CFGS: ticket, conn)
+        "t12tk", "t12tk2", "t12tkrot", "t12tk3", "t12rid", "t13tk", "t13tk2", "d12rid"]
+DTLS = {"d12", "d12ca", "d12cbc", "d12f", "d10", "d12rid"}
+MULTI_CONN = {"t12tk2": 2, "t12tkrot": 2, "t12tk3": 3, "t12rid": 2, "t13tk2": 2, "d12rid": 2}     # which connection the transcript is
+HVR_FULL_GRID = {"d12", "d10"}          # every ordered pair of cookie lengths; the other DTLS configurations get a sample
 MACSZ = {"t11": 20, "t12cbc": 32, "t12rsa": 32, "d12cbc": 32, "d10": 20}
 
 EXPLORED_ONLY = [
@@ -50,7 +65,8 @@ EXPLORED_ONLY = [
 ]
 
 
-ALWAYS_CLASSES = ("tail-over-split", "ext-last-split")      # never sampled away: every (overclaim, nesting level) of every handshake message
+DIRECTED_CLASSES = ("hvr-seq", "hvr-again", "ch-retx", "nst-len", "nst-reuse")     # message-sequence / multi-connection scenarios (directed())
+ALWAYS_CLASSES = ("tail-over-split", "ext-last-split") + DIRECTED_CLASSES      # never sampled away: every (overclaim, nesting level) of every handshake message
 RESEND_CLASSES = ("dup-newseq", "dup-newseq-timeout", "timeout", "resend-prev", "resend-prev-timeout")
 
 # ------------------------------------------------------------------ transcript handling
@@ -231,6 +247,7 @@ def mutations(cfg, units, k, r):
         i = r.randrange(1, L_)
         out_ = [u.rec(hs_hdr(cfg, t_, L_, msn_, 0, i) + body_[:i]), u.rec(hs_hdr(cfg, t_, L_, msn_, i, L_ - i) + body_[i:] + mc[e_:], seqadd=1)]
         return out_
+    yield from directed(cfg, units, k, r)
     # ---- content level (chosen plaintext: the peer owns the keys)
     flips = content
     for _ in range(24):
@@ -434,6 +451,146 @@ def mutations(cfg, units, k, r):
         # extension-ish: 16-bit lengths near the end of hello messages are covered by `lenfield`
 
 
+COOKIE_LENS = (0, 1, 16, 32, 255)
+
+
+def ch_cookie(body, cookie):
+    """DTLS ClientHello body with the cookie replaced (version 2, random 32, session_id<0..32>, cookie<0..255>, ...)"""
+    o = 34
+    if len(body) < o + 1: return None
+    o += 1 + body[o]
+    if len(body) < o + 1 or len(body) < o + 1 + body[o]: return None
+    return body[:o] + bytes([len(cookie) & 0xFF]) + cookie + body[o + 1 + body[o]:]
+
+
+def directed(cfg, units, k, r):
+    """message-sequence scenarios that no single-message mutation produces.  Class names carry `#variant`: classes in
+    ALWAYS_CLASSES run one case per variant in every tier (never sampled away)."""
+    u = units[k]; d = cfg in DTLS
+    nf = "n" if u.nullc else ""
+    ct, content = u.content()
+    msgs = hs_msgs(cfg, content) if ct == 22 else []
+    if d and u.to == "c" and u.kind == 0:
+        # ---- DTLS client: repeated / varied HelloVerifyRequests.  k = the state before the genuine HelloVerifyRequest
+        # (no cookie yet) or before the ServerHello (the client holds the genuine cookie).  Afterwards the genuine
+        # server flight of the transcript, then everything is deleted (LeakSanitizer).
+        hvr_i = next((i for i, x in enumerate(units) if x.to == "c" and x.kind == 0 and x.content()[0] == 22 and x.content()[1][:1] == b"\x03"), None)
+        if hvr_i is not None and (k == hvr_i or (k > hvr_i and [x.i for x in units[hvr_i + 1:] if x.to == "c"][:1] == [k])):
+            g = units[hvr_i]; gm = hs_msgs(cfg, g.content()[1])[0]; gcookie = gm[5][3:3 + gm[5][2]]; ver = gm[5][:2]
+            flight = [x.wire for x in units[k:] if x.to == "c" and x.kind == 0][:6]
+            seqn = [0]
+            def hvr(cookie, msn=0, replay=False, claim=None):
+                if not replay: seqn[0] += 1
+                body = ver + bytes([len(cookie) if claim is None else claim]) + cookie
+                return g.rec(hs_hdr(cfg, 3, len(body), msn, 0, len(body)) + body, seqadd=20 + seqn[0])      # replay: the record number of the one before
+            def ck(n, tag):
+                if tag == "g": return (gcookie * 16)[:n]            # the stored cookie, cut / extended to n bytes
+                return bytes((tag * 37 + 11 + j) & 0xFF for j in range(n))
+            full = cfg in HVR_FULL_GRID
+            cl = "hvr-seq" if k == hvr_i else "hvr-again"
+            def out(var, seq, always=True):
+                return ("%s#%s" % (cl, var) if (always and full) else cl + "-more", "eo", seq + flight)
+            if k == hvr_i:
+                for a in COOKIE_LENS:
+                    for b in COOKIE_LENS:
+                        yield out("%d.%d" % (a, b), [hvr(ck(a, 1)), hvr(ck(b, 2))])                  # two requests, different cookies
+                    yield out("%d.same" % a, [hvr(ck(a, 1)), hvr(ck(a, 1))])                          # the same request again
+                    yield out("%d.replay" % a, [hvr(ck(a, 1)), hvr(ck(a, 1), replay=True)])           # ... with the same record number
+                    yield out("%d.msn1" % a, [hvr(ck(a, 1)), hvr(ck(255 - a, 2), msn=1)])
+                    yield out("%d.prefix" % a, [hvr(ck(a, 1)), hvr((ck(a, 1) + ck(7, 3))[:255])])             # longer, equal prefix
+                for n in (3, 4):
+                    for j in range(3):
+                        ls = [r.choice(COOKIE_LENS) for _ in range(n)]
+                        yield out("n%d.%d" % (n, j), [hvr(ck(x, r.randrange(1, 4)), msn=r.choice((0, 0, 1))) for x in ls])
+                yield out("claim", [hvr(ck(8, 1), claim=200)])
+            else:
+                for b in COOKIE_LENS:
+                    yield out("%d.diff" % b, [hvr(ck(b, 2))])
+                    yield out("%d.stored" % b, [hvr(ck(b, "g"))])                                     # prefix of / longer than the stored one
+                    yield out("%d.msn1" % b, [hvr(ck(b, 2), msn=1)])
+                    yield out("%d.twice" % b, [hvr(ck(b, 2)), hvr(ck(b, 3))])
+                yield out("genuine", [hvr(gcookie)])
+                yield out("genuine-replay", [hvr(gcookie, replay=True)])
+                yield out("genuine-longer", [hvr(gcookie + ck(16, 2))])
+    if d and u.to == "s" and u.kind == 0:
+        # ---- DTLS server: ClientHello retransmissions without / with the right / with a wrong cookie, then the rest
+        chs = [x for x in units if x.to == "s" and x.kind == 0 and x.content()[0] == 22 and x.content()[1][:1] == b"\x01"]
+        if len(chs) >= 2 and k in [chs[0].i, chs[1].i] + [x.i for x in units[chs[1].i + 1:] if x.to == "s"][:1]:
+            m1 = hs_msgs(cfg, chs[0].content()[1])[0]; m2 = hs_msgs(cfg, chs[1].content()[1])[0]
+            rest = [x.wire for x in units[k:] if x.to == "s" and x.kind == 0][:4]
+            seqn = [0]
+            def ch(kind, n=16, msn=None, replay=False):
+                if not replay: seqn[0] += 1
+                if kind == "none": m, body = m1, m1[5]
+                elif kind == "right": m, body = m2, m2[5]
+                else:
+                    m = m2
+                    good = m2[5][35 + m2[5][34] + 1:35 + m2[5][34] + 1 + m2[5][35 + m2[5][34]]]
+                    c_ = (good * 16)[:n] if kind == "prefix" else bytes((0xA5 + j) & 0xFF for j in range(n))
+                    if kind == "flip" and good: c_ = good[:-1] + bytes([good[-1] ^ 1])
+                    body = ch_cookie(m2[5], c_)
+                    if body is None: return None
+                base = chs[0] if kind == "none" else chs[1]
+                return base.rec(hs_hdr(cfg, 1, len(body), m[2] if msn is None else msn, 0, len(body)) + body, seqadd=30 + seqn[0])
+            seqs = []
+            for n in COOKIE_LENS:
+                seqs.append(("wrong%d" % n, [ch("wrong", n)]))
+                seqs.append(("prefix%d" % n, [ch("prefix", n)]))
+                seqs.append(("none-wrong%d-right" % n, [ch("none"), ch("wrong", n), ch("right")]))
+            seqs += [("flip", [ch("flip")]), ("none-none", [ch("none"), ch("none")]), ("none-replay", [ch("none"), ch("none", replay=True)]),
+                     ("right-right", [ch("right"), ch("right")]), ("right-replay", [ch("right"), ch("right", replay=True)]),
+                     ("right-none", [ch("right"), ch("none")]), ("right-wrong", [ch("right"), ch("wrong", 16)]),
+                     ("none-msn1", [ch("none", msn=1)]), ("right-msn0", [ch("right", msn=0)]), ("right-msn2", [ch("right", msn=2)]),
+                     ("wrong-flip-right", [ch("wrong", 32), ch("flip"), ch("right")])]
+            full = cfg in HVR_FULL_GRID
+            for var, sq in seqs:
+                if any(x is None for x in sq): continue
+                yield ("ch-retx#%d.%s" % (k, var) if full else "ch-retx-more", "eo", sq + rest)
+    # ---- NewSessionTicket of any length / lifetime (first ticket, renewal for a session id that already holds one)
+    for (t, Lh, msn, off, fl, body, s_, e_) in msgs[:2]:
+        if t != 4 or u.to != "c" or d: continue
+        pre, post = content[:s_], content[e_:]
+        t13 = cfg.startswith("t13")
+        if t13:
+            if len(body) < 9: continue
+            nl = body[8]; nonce = body[9:9 + nl]; o = 9 + nl
+            tl = int.from_bytes(body[o:o + 2], "big"); ticket = body[o + 2:o + 2 + tl]; tail = body[o + 2 + tl:]
+            mk = lambda life, tk, nn=nonce, tl_=None: life + body[4:8] + bytes([len(nn) & 0xFF]) + nn + (len(tk) if tl_ is None else tl_).to_bytes(2, "big") + tk + tail
+        else:
+            if len(body) < 6: continue
+            tl = int.from_bytes(body[4:6], "big"); ticket = body[6:6 + tl]
+            mk = lambda life, tk, nn=None, tl_=None: life + (len(tk) if tl_ is None else tl_).to_bytes(2, "big") + tk
+        life = body[:4]
+        def deliver(var, nb):
+            M = hs_hdr(cfg, 4, len(nb)) + nb
+            mc = pre + M + post
+            if len(mc) <= 16000:
+                yield ("nst-len#%s" % var, "e" + nf, [u.rec(mc)])
+                # ... and the application connects again with the session id object the ticket was stored in
+                yield ("nst-reuse#%s" % var, "er" + nf, [u.rec(mc)])
+                i = max(1, len(M) // 2)
+                yield ("nst-len#%s.split" % var, "e" + nf, [u.rec(pre + M[:i]), u.rec(M[i:] + post)])
+            else:
+                yield ("nst-len#%s" % var, "e" + nf, [u.rec(mc[i:i + 15000]) for i in range(0, len(mc), 15000)])
+                yield ("nst-reuse#%s" % var, "er" + nf, [u.rec(mc[i:i + 15000]) for i in range(0, len(mc), 15000)])
+        for n in sorted({0, 1, tl - 1, tl, tl + 1, tl + 16, tl + 64, 2 * tl + 1, 4000, 15000, 16400, 39000}):     # 16400: the next ClientHello needs two records
+            if n < 0: continue
+            tk = (ticket * (n // max(1, tl) + 1))[:n] if n != tl else bytes(b ^ 0x55 for b in ticket)
+            yield from deliver("L%d" % n, mk(life, tk))
+        for lf in (0, 1, 604800, 604801, 0x7FFFFFFF, 0xFFFFFFFF):
+            yield from deliver("life%x" % lf, mk(lf.to_bytes(4, "big"), ticket))
+        yield from deliver("claim+1", mk(life, ticket, tl_=tl + 1))
+        yield from deliver("claim-1", mk(life, ticket, tl_=max(0, tl - 1)))
+        if t13:
+            for nn in (0, 1, 255):
+                yield from deliver("nonce%d" % nn, mk(life, ticket, nn=bytes(nn)))
+        # the same ticket message twice in a row (duplicate) and old + new one
+        M0 = hs_hdr(cfg, 4, len(body)) + body
+        yield ("nst-len#twice", "e" + nf, [u.rec(pre + M0 + M0 + post)])
+        nb = mk(life, ticket + bytes(33))
+        yield ("nst-len#old-then-longer", "e" + nf, [u.rec(pre + M0), u.rec(hs_hdr(cfg, 4, len(nb)) + nb + post)])
+
+
 def ext_block(body):
     """(offset of the 2-byte list length, [(type, data)]) of an extension list that ends the body, or None"""
     for o in range(len(body) - 1):
@@ -471,6 +628,9 @@ def vc_enclosing(body, o, w, v):
     return chain
 
 
+GENERATED = {}          # class -> number of cases the generators produced (before sampling), filled by build_cases
+
+
 def build_cases(caps, rng, per_state, classes_seen):
     """stratified sample: per (cfg,k) up to per_state cases, at least one of every class"""
     cases = []
@@ -485,20 +645,27 @@ def build_cases(caps, rng, per_state, classes_seen):
                 if not chunks or sum(len(c) for c in chunks) > 60000: continue
                 cl, _, var = cl.partition("#")
                 byc.setdefault(cl, []).append((cl, fl, chunks, var))
-            pick = []
+            # configurations added for their later connections share most of their states' code with the single-connection
+            # ones: there only the directed classes are always-run and the sampled classes get half of the budget in total
+            reduced = cfg in MULTI_CONN or cfg in ("t12tk", "t13tk")
+            pick, singles = [], []
             for cl in sorted(byc):
+                GENERATED[cl] = GENERATED.get(cl, 0) + len(byc[cl])
                 r.shuffle(byc[cl])
-                if cl in ALWAYS_CLASSES:
+                if cl in (DIRECTED_CLASSES if reduced else ALWAYS_CLASSES):
                     # one delivery of every message variant (the variants are the (message, d, nesting level) grid)
                     first = {}
                     for x in byc[cl]: first.setdefault(x[3], x)
                     pick += [x[:3] for x in first.values()]
                     byc[cl] = [x for x in byc[cl] if first[x[3]] is not x]
                     continue
-                pick.append(byc[cl].pop()[:3])
+                singles.append(byc[cl].pop()[:3])
+            if reduced:
+                r.shuffle(singles); singles = singles[:per_state // 2]
+            pick += singles
             rest = [x[:3] for cl in sorted(byc) for x in byc[cl]]
             r.shuffle(rest)
-            pick += rest[:max(0, per_state - len(pick))]
+            pick += rest[:max(0, (0 if reduced else per_state) - len(pick))]
             for (cl, fl, chunks) in pick:
                 classes_seen[cl] = classes_seen.get(cl, 0) + 1
                 cases.append((cl, "x %s %d %s %s %s" % (cfg, k, units[k].to, fl or "-", " ".join(vlib.hexs(c) for c in chunks))))
@@ -668,7 +835,7 @@ def memcheck_finish(ck, handle, lines, labels):
             if m and os.path.basename(m.group(2).split(":")[0]).startswith("h_wire") and not m.group(1).startswith(VG_HARNESS_FRAMES):
                 fn = m.group(1); break
         n += 1
-        ck.spec_violation("uninit:memcheck:%s" % fn, "valgrind memcheck: %s in %s (class %s)" % (kind, fn, labels[i][0]),
+        ck.spec_violation(("uninit:memcheck:%s" if "ninitialised" in kind else "memcheck:%s") % fn, "valgrind memcheck: %s in %s (class %s)" % (kind, fn, labels[i][0]),
                           {"harness": "h_wire (plain build) under valgrind -q --track-origins=yes", "case": lines[i], "observed": "\n".join(rep)[:2500],
                            "expected_by_spec": "no memcheck report"})
     ck.cov["memcheck_cases"] = len(lines)
@@ -1103,7 +1270,7 @@ def explore(ck, h, quick_per_state, thorough_per_state):
         lines = lines + sn
     # paint differential: legal traces of every configuration, all corpus / directed cases, a deterministic sample of
     # the exploration (every case in thorough)
-    step = ck.budget(10, 1)
+    step = ck.budget(12, 1)
     ncorp = len(corp)
     idx = list(range(ncorp)) + list(range(ncorp, ncorp + len(cases), step))
     pl = ["cap %s" % c for c in CFGS] + [lines[i] for i in idx] + sn
@@ -1134,6 +1301,10 @@ def explore(ck, h, quick_per_state, thorough_per_state):
     ck.cov["exploration_cases"] = len(lines)
     ck.cov["exploration_findings"] = nfind
     ck.cov["mutation_classes"] = sorted(classes)
+    # which classes are sampled: "run/generated" per class; the always-run classes execute one case per variant in every tier
+    ck.cov["always_run_classes"] = {c: "%d/%d" % (classes.get(c, 0), GENERATED.get(c, 0)) for c in ALWAYS_CLASSES}
+    ck.cov["sampled_classes"] = {c: "%d/%d" % (classes.get(c, 0), GENERATED.get(c, 0)) for c in sorted(classes) if c not in ALWAYS_CLASSES}
+    ck.cov["multi_connection_configurations"] = MULTI_CONN
     ck.cov["states_explored"] = {c: len(caps[c][0]) for c in caps if caps[c][0]}
     return caps
 
@@ -1221,6 +1392,9 @@ def run(ck):
                     "record/handshake/extension length fields, types, versions, epochs, fragment splits at every offset for TLS / TLS 1.3 / DTLS incl. overlap, gap, "
                     "duplicate, zero-length, >16 fragments, coalescing, junk, bit flips, vector growth); encrypted states with chosen plaintext through a null cipher of "
                     "the same geometry; every case in a forked child, input buffer re-allocated to fit exactly" % (len(CFGS), 52))
+    ck.rules.append("scenarios: second / third connections on one sslSessionId_t + server keys + session cache (ticket, rotated ticket key, renewed ticket, "
+                    "session id, TLS 1.3 PSK, DTLS session id) explored like the first ones; always-run directed classes: HelloVerifyRequest sequences "
+                    "(cookie lengths 0/1/16/32/255, all ordered pairs), ClientHello retransmissions with right / wrong / no cookie, NewSessionTicket lengths")
     ck.rules.append("unit operations: generated per case split of the proofs (header lengths 0/1/max/max+1/0xFFFF, every version code, DTLS epoch/replay combinations and "
                     "multi-record datagrams, CCS runs, handshake length limits 1024/65536 +-1, fragment offsets/lengths around every boundary, scripted decoder answers "
                     "inside and outside the contract, CBC pad bytes around every boundary); non-trivial = not a plain SSL_PARTIAL")
